@@ -5,10 +5,10 @@ package main
 
 import (
 	"fmt"
-	"os"
 	"go/constant"
 	"go/token"
 	"go/types"
+	"os"
 	"sort"
 	"strings"
 
@@ -35,27 +35,28 @@ type loopInfo struct {
 }
 
 type Frame struct {
-	vc       *VC
-	id       int
-	fn       *ssa.Function
-	vals     map[ssa.Value]Val
-	reg      map[*ssa.Alloc]bool
-	params   []Val
-	freeVars []Val
-	entry    *State // state at entry (for old())
-	depth    int
-	contract *Contract // contract being verified (top-level frame only)
-	top      bool
-	loops    map[*ssa.BasicBlock]*loopInfo
-	edgePC   map[*ssa.BasicBlock]map[*ssa.BasicBlock]Term
-	defers   []*ssa.Defer
-	rangeOf  map[*ssa.Next]*ssa.Range
-	specVars map[string]Val // params by name at entry
-	callOrd  map[string]int
+	guardN     int // ordinal of guarded-field accesses
+	vc         *VC
+	id         int
+	fn         *ssa.Function
+	vals       map[ssa.Value]Val
+	reg        map[*ssa.Alloc]bool
+	params     []Val
+	freeVars   []Val
+	entry      *State // state at entry (for old())
+	depth      int
+	contract   *Contract // contract being verified (top-level frame only)
+	top        bool
+	loops      map[*ssa.BasicBlock]*loopInfo
+	edgePC     map[*ssa.BasicBlock]map[*ssa.BasicBlock]Term
+	defers     []*ssa.Defer
+	rangeOf    map[*ssa.Next]*ssa.Range
+	specVars   map[string]Val // params by name at entry
+	callOrd    map[string]int
 	entryAlloc Term
-	up       *Frame
-	siteOrd  map[ssa.Instruction]int
-	isInit   bool
+	up         *Frame
+	siteOrd    map[ssa.Instruction]int
+	isInit     bool
 }
 
 func (vc *VC) newFrame(fn *ssa.Function, depth int) *Frame {
@@ -482,6 +483,26 @@ func (fr *Frame) exec(st *State, instr ssa.Instruction) {
 		stt := x.X.Type().Underlying().(*types.Pointer).Elem().Underlying().(*types.Struct)
 		fr.safety(st, "nil-deref", tNot(tEq(p.S[0], "0")), "field address through "+x.X.Name()+" of type "+x.X.Type().String())
 		fr.setVal(x, Val{S: []Term{p.S[0], tAdd(p.S[1], tInt(int64(lay.fieldOffset(stt, x.Field))))}})
+		if vc.guarded != nil && vc.inQuant == 0 {
+			// lock discipline: a guarded field is reached only while its mutex is held
+			// (also inside inlined callees)
+			for _, g := range vc.guarded {
+				if stt.Field(x.Field).Name() != g[0] {
+					continue
+				}
+				for mi := 0; mi < stt.NumFields(); mi++ {
+					if stt.Field(mi).Name() != g[1] || len(lay.of(stt.Field(mi).Type()).Kinds) != 1 || lay.of(stt.Field(mi).Type()).Kinds[0] != KM {
+						continue
+					}
+					hm := vc.get(st, vc.heapKey(KM))
+					held := tSel2(hm, p.S[0], tAdd(p.S[1], tInt(int64(lay.fieldOffset(stt, mi)))))
+					vc.guardN++
+					name := fmt.Sprintf("%s/guarded[%s#%d]", vc.fnKey, g[0], vc.guardN)
+					vc.curPos = x.Pos()
+					vc.oblige(st, name, "guarded", held, fmt.Sprintf("field %s is accessed only while %s is held", g[0], g[1]))
+				}
+			}
+		}
 	case *ssa.Field:
 		s := fr.val(st, x.X)
 		stt := x.X.Type().Underlying().(*types.Struct)
